@@ -1,10 +1,13 @@
-"""Monitor-only runs of the C01/C02 shadow-client and convergence monitors on
-the maildir backend (no model: Store/*.v describes the dict backend).
+"""The maildir backend under the Store model (mailboxes with mb_md = true:
+coq/theories/Store/Mailbox.v) and under the shadow-client / convergence
+monitors.
 
 MaildirRun drives a MaildirEnv with N connections like StoreRun drives the
-dict backend; what the generator needs to know about the mailbox (existing
-uids, recently removed uids, highest uid) comes from a probe connection
-instead of the backend's objects."""
+dict backend.  Glass box: the connections' SynchronizedMessages as for dict;
+the mailbox is read from the files (dovecot-uidlist records whose file exists
+in cur/ or new/, flags from the file name, recent = the file is in new/).
+What the generator needs to know about the mailbox comes from the same
+reading."""
 from __future__ import annotations
 
 from .pymap_env import MaildirEnv
@@ -34,6 +37,7 @@ class MaildirRun(StoreRun):
         self.layout = layout
         self.shims: dict[int, _BoxShim] = {1: _BoxShim(), 2: _BoxShim()}
         self.probe: Probe | None = None
+        self.paths: dict[int, str] = {}
 
     async def start(self, sessions) -> 'MaildirRun':
         _patch_pick()
@@ -50,6 +54,10 @@ class MaildirRun(StoreRun):
             await self.connect(s)
         self.probe = Probe(self)
         await self.refresh()
+        # where the mailboxes live on disk (through the probe connection's own MailboxSet)
+        mset = find_state(self.probe.conn)._session.mailbox_set
+        self.paths = {1: (await mset.get_mailbox('INBOX'))._path,
+                      2: (await mset.get_mailbox('Sent'))._path}
         return self
 
     async def connect(self, s: int) -> None:
@@ -81,11 +89,42 @@ class MaildirRun(StoreRun):
     def boxes(self):
         return {}
 
+    def md_box_obs(self, num: int) -> dict:
+        """The mailbox as the files say (synchronous, reads only)."""
+        import os
+        from pymap.backend.maildir.uidlist import UidList
+        path = self.paths[num]
+        uidl = UidList.file_read(path)
+        files = {}
+        for sub in ('new', 'cur'):
+            for name in os.listdir(os.path.join(path, sub)):
+                key, _, info = name.partition(':')
+                letters = info[2:] if info.startswith('2,') else ''
+                files[key] = (sub, letters)
+        code = {'R': 1, 'T': 2, 'D': 3, 'F': 4, 'S': 5}
+        msgs = []
+        for rec in uidl.records:
+            if rec.key in files:
+                sub, letters = files[rec.key]
+                msgs.append((rec.uid, sorted({code[c] for c in letters if c in code}), sub == 'new'))
+        return {'max_uid': uidl.next_uid - 1, 'msgs': msgs, 'highest': None, 'uids': None,
+                'readonly': False}
+
     def setup_labels(self):
-        return []
+        labels = []
+        content = 1
+        for num in sorted(self.paths):
+            labels.append(('createmaildir', num))
+            for uid, fl, recent in self.md_box_obs(num)['msgs']:
+                labels.append(('deliver', num, fl, recent, content))
+                content += 1
+        return labels
 
     def observe(self, exclude=()):
-        return {'sels': {}, 'boxes': {}}
+        from .store_env import sel_obs
+        return {'sels': {s: sel_obs(self.selected(s)) for s in sorted(self.conns)
+                         if s not in exclude},
+                'boxes': {n: self.md_box_obs(n) for n in sorted(self.paths)}}
 
     async def close(self) -> None:
         await super().close()
@@ -98,7 +137,7 @@ class MaildirRun(StoreRun):
 
 
 async def monitored_maildir_trace(rng, *, nsess: int, nsteps: int, checkpoint_every: int = 4,
-                                  layout: str = '++'):
+                                  layout: str = '++', group: float = 0.0, flipflop: float = 0.0):
     from .store_check import Monitored
     from .store_gen import TraceGen
     from .store_trace import Trace, exec_label
@@ -107,18 +146,26 @@ async def monitored_maildir_trace(rng, *, nsess: int, nsteps: int, checkpoint_ev
     run = await MaildirRun(layout).start(sessions)
     mon.probe = run.probe
     trace = Trace()
+    trace.setup = run.setup_labels()
     weights = {'idle': 0, 'deliver': 0, 'check': 2}
-    gen = TraceGen(rng, run, sessions, boxes=(1,), idle=False, weights=weights)
+    gen = TraceGen(rng, run, sessions, boxes=(1,), idle=False, weights=weights, group=group,
+                   flipflop=flipflop, deliveries=False)
     hooks = (mon.hook,)
     try:
         for s in sessions:
             await exec_label(run, trace, ('cmd', s, ('select', 1, False)), hooks)
             await exec_label(run, trace, ('cmd', s, ('fetch', [(1, '*')], False, True, False)), hooks)
         for i in range(nsteps):
-            await run.refresh()
+            if not gen.queue:
+                await run.refresh()
             await exec_label(run, trace, gen.next_label(), hooks)
-            await mon.checkpoint(run, trace, i)
+            if not gen.queue:
+                await mon.checkpoint(run, trace, i)
+        while gen.queue:
+            await exec_label(run, trace, gen.queue.pop(0), hooks)
         await mon.checkpoint(run, trace, 0, force=True)
+        for lab, susp in run.atomicity:    # the model's atomic steps, measured here as for dict
+            trace.problems.append({'kind': 'atomicity', 'label': repr(lab), 'suspensions': susp})
     finally:
         await run.close()
     return trace, mon, run
@@ -132,6 +179,7 @@ async def monitored_maildir_fixed(labels, *, nsess: int, layout: str = '++'):
     run = await MaildirRun(layout).start(list(range(1, nsess + 1)))
     mon.probe = run.probe
     trace = Trace()
+    trace.setup = run.setup_labels()
     hooks = (mon.hook,)
     try:
         for label in labels:
@@ -139,6 +187,8 @@ async def monitored_maildir_fixed(labels, *, nsess: int, layout: str = '++'):
                 continue
             await exec_label(run, trace, label, hooks)
         await mon.checkpoint(run, trace, 0, force=True)
+        for lab, susp in run.atomicity:
+            trace.problems.append({'kind': 'atomicity', 'label': repr(lab), 'suspensions': susp})
     finally:
         await run.close()
     return trace, mon
